@@ -263,7 +263,7 @@ func zzVoteService(db *storage.CacheDB, input []byte, height uint32, signers ...
 }
 
 // ZZ_C25_VoteHandler: VoteHandler.MakeDepositProposal on main net, 4 consensus validators (quorum 3).
-// T submissions of the same subject (source chain, height, message) by arbitrary validators, each
+// PRE+T submissions of the same subject (source chain, height, message) by arbitrary validators, each
 // witnessed by its relayer address, or naming a validator but witnessed by an arbitrary other address; then a second subject carrying
 // the same cross-chain id is voted through: it must hit the done mark.
 func ZZ_C25_VoteHandler() {
@@ -282,8 +282,12 @@ func ZZ_C25_VoteHandler() {
 
 	var votedSet [4]bool
 	distinct, releases := 0, 0
-	for t := 0; t < T; t++ {
-		v := zzsym.Choose("voter", 6) // 4: stranger (key 7); 5: validator 3 named as relayer, witnessed by somebody else
+	PRE := zzsym.Param("PRE") // the first PRE votes are cast by validators 0..PRE-1 (saves paths in the quick tier)
+	for t := 0; t < PRE+T; t++ {
+		v := t
+		if t >= PRE {
+			v = zzsym.Choose("voter", 6) // 4: stranger (key 7); 5: validator 3 named as relayer, witnessed by somebody else
+		}
 		forged := v == 5
 		if forged {
 			v = 3
